@@ -13,12 +13,17 @@ import (
 type Locker = sync.Locker
 type Pool = sync.Pool
 
+//go:norace
 func OnceFunc(f func()) func() { var o Once; return func() { o.Do(f) } }
+
+//go:norace
 func OnceValue[T any](f func() T) func() T {
 	var o Once
 	var v T
 	return func() T { o.Do(func() { v = f() }); return v }
 }
+
+//go:norace
 func OnceValues[A, B any](f func() (A, B)) func() (A, B) {
 	var o Once
 	var a A
@@ -34,10 +39,12 @@ type Mutex struct {
 	owner  *simrt.Task
 }
 
+//go:norace
 func (m *Mutex) SimDescribe() string {
 	return fmt.Sprintf("Mutex@%p held by %v", m, m.owner)
 }
 
+//go:norace
 func (m *Mutex) Lock() {
 	if simrt.Active() == nil {
 		m.real.Lock()
@@ -55,6 +62,7 @@ func (m *Mutex) Lock() {
 	raceAcquire(m)
 }
 
+//go:norace
 func (m *Mutex) TryLock() bool {
 	if simrt.Active() == nil {
 		return m.real.TryLock()
@@ -72,6 +80,7 @@ func (m *Mutex) TryLock() bool {
 	return true
 }
 
+//go:norace
 func (m *Mutex) Unlock() {
 	if simrt.Active() == nil {
 		m.real.Unlock()
@@ -100,12 +109,16 @@ type RWMutex struct {
 	wWaiting int
 	owner    *simrt.Task
 	readers  []*simrt.Task
+	// addresses standing in for sync.RWMutex's semaphores in the race annotations
+	readerSem, writerSem uint32
 }
 
+//go:norace
 func (rw *RWMutex) SimDescribe() string {
 	return fmt.Sprintf("RWMutex@%p writer=%v readers=%v writersWaiting=%d", rw, rw.owner, rw.readers, rw.wWaiting)
 }
 
+//go:norace
 func (rw *RWMutex) RLock() {
 	if simrt.Active() == nil {
 		rw.real.RLock()
@@ -121,9 +134,10 @@ func (rw *RWMutex) RLock() {
 	}
 	rw.r++
 	rw.readers = append(rw.readers, simrt.Current())
-	raceAcquire(rw)
+	raceAcquireAddr(&rw.readerSem)
 }
 
+//go:norace
 func (rw *RWMutex) TryRLock() bool {
 	if simrt.Active() == nil {
 		return rw.real.TryRLock()
@@ -134,10 +148,11 @@ func (rw *RWMutex) TryRLock() bool {
 	}
 	rw.r++
 	rw.readers = append(rw.readers, simrt.Current())
-	raceAcquire(rw)
+	raceAcquireAddr(&rw.readerSem)
 	return true
 }
 
+//go:norace
 func (rw *RWMutex) RUnlock() {
 	if simrt.Active() == nil {
 		rw.real.RUnlock()
@@ -150,7 +165,7 @@ func (rw *RWMutex) RUnlock() {
 		simrt.Misuse("sync: RUnlock of unlocked RWMutex")
 		panic("sync: RUnlock of unlocked RWMutex")
 	}
-	raceReleaseMerge(rw)
+	raceReleaseMergeAddr(&rw.writerSem)
 	rw.r--
 	me := simrt.Current()
 	for i, t := range rw.readers {
@@ -163,6 +178,7 @@ func (rw *RWMutex) RUnlock() {
 	simrt.Yield(simrt.SiteRUnlock)
 }
 
+//go:norace
 func (rw *RWMutex) Lock() {
 	if simrt.Active() == nil {
 		rw.real.Lock()
@@ -179,9 +195,11 @@ func (rw *RWMutex) Lock() {
 	rw.wWaiting--
 	rw.w = true
 	rw.owner = simrt.Current()
-	raceAcquire(rw)
+	raceAcquireAddr(&rw.readerSem)
+	raceAcquireAddr(&rw.writerSem)
 }
 
+//go:norace
 func (rw *RWMutex) TryLock() bool {
 	if simrt.Active() == nil {
 		return rw.real.TryLock()
@@ -192,10 +210,12 @@ func (rw *RWMutex) TryLock() bool {
 	}
 	rw.w = true
 	rw.owner = simrt.Current()
-	raceAcquire(rw)
+	raceAcquireAddr(&rw.readerSem)
+	raceAcquireAddr(&rw.writerSem)
 	return true
 }
 
+//go:norace
 func (rw *RWMutex) Unlock() {
 	if simrt.Active() == nil {
 		rw.real.Unlock()
@@ -208,18 +228,25 @@ func (rw *RWMutex) Unlock() {
 		simrt.Misuse("sync: Unlock of unlocked RWMutex")
 		panic("sync: Unlock of unlocked RWMutex")
 	}
-	raceRelease(rw)
+	// like sync.RWMutex: readers acquire what writers release (readerSem), writers acquire what
+	// readers and earlier writers release (writerSem); readers do not synchronise with each other
+	raceReleaseAddr(&rw.readerSem)
+	raceReleaseMergeAddr(&rw.writerSem)
 	rw.w = false
 	rw.owner = nil
 	simrt.WakeAll(rw)
 	simrt.Yield(simrt.SiteWUnlock)
 }
 
+//go:norace
 func (rw *RWMutex) RLocker() Locker { return (*rlocker)(rw) }
 
 type rlocker RWMutex
 
-func (r *rlocker) Lock()   { (*RWMutex)(r).RLock() }
+//go:norace
+func (r *rlocker) Lock() { (*RWMutex)(r).RLock() }
+
+//go:norace
 func (r *rlocker) Unlock() { (*RWMutex)(r).RUnlock() }
 
 // ---------------------------------------------------------------- WaitGroup
@@ -230,8 +257,10 @@ type WaitGroup struct {
 	sema int // modelled racy word for the WaitGroup misuse detector (see race.go)
 }
 
+//go:norace
 func (wg *WaitGroup) SimDescribe() string { return fmt.Sprintf("WaitGroup@%p counter=%d", wg, wg.n) }
 
+//go:norace
 func (wg *WaitGroup) Add(delta int) {
 	if simrt.Active() == nil {
 		wg.real.Add(delta)
@@ -257,8 +286,10 @@ func (wg *WaitGroup) Add(delta int) {
 	}
 }
 
+//go:norace
 func (wg *WaitGroup) Done() { wg.Add(-1) }
 
+//go:norace
 func (wg *WaitGroup) Wait() {
 	if simrt.Active() == nil {
 		wg.real.Wait()
@@ -277,6 +308,7 @@ func (wg *WaitGroup) Wait() {
 	raceAcquire(wg)
 }
 
+//go:norace
 func (wg *WaitGroup) Go(f func()) {
 	wg.Add(1)
 	simrt.Go(func() {
@@ -293,6 +325,7 @@ type Once struct {
 	running bool
 }
 
+//go:norace
 func (o *Once) Do(f func()) {
 	if simrt.Active() == nil {
 		o.real.Do(f)
@@ -327,8 +360,10 @@ type Cond struct {
 	waiters []*simrt.Task
 }
 
+//go:norace
 func NewCond(l Locker) *Cond { return &Cond{L: l, real: sync.NewCond(l)} }
 
+//go:norace
 func (c *Cond) Wait() {
 	if simrt.Active() == nil {
 		c.real.Wait()
@@ -346,6 +381,7 @@ func (c *Cond) Wait() {
 	c.L.Lock()
 }
 
+//go:norace
 func (c *Cond) waiting(t *simrt.Task) bool {
 	for _, w := range c.waiters {
 		if w == t {
@@ -355,6 +391,7 @@ func (c *Cond) waiting(t *simrt.Task) bool {
 	return false
 }
 
+//go:norace
 func (c *Cond) Signal() {
 	if simrt.Active() == nil {
 		c.real.Signal()
@@ -367,6 +404,7 @@ func (c *Cond) Signal() {
 	}
 }
 
+//go:norace
 func (c *Cond) Broadcast() {
 	if simrt.Active() == nil {
 		c.real.Broadcast()
@@ -382,25 +420,44 @@ func (c *Cond) Broadcast() {
 // Map is sync.Map with a decision point before every operation.
 type Map struct{ real sync.Map }
 
+//go:norace
 func (m *Map) Load(k any) (any, bool) { simrt.Yield(simrt.SiteMap); return m.real.Load(k) }
-func (m *Map) Store(k, v any)         { simrt.Yield(simrt.SiteMap); m.real.Store(k, v) }
+
+//go:norace
+func (m *Map) Store(k, v any) { simrt.Yield(simrt.SiteMap); m.real.Store(k, v) }
+
+//go:norace
 func (m *Map) LoadOrStore(k, v any) (any, bool) {
 	simrt.Yield(simrt.SiteMap)
 	return m.real.LoadOrStore(k, v)
 }
+
+//go:norace
 func (m *Map) LoadAndDelete(k any) (any, bool) {
 	simrt.Yield(simrt.SiteMap)
 	return m.real.LoadAndDelete(k)
 }
-func (m *Map) Delete(k any)              { simrt.Yield(simrt.SiteMap); m.real.Delete(k) }
+
+//go:norace
+func (m *Map) Delete(k any) { simrt.Yield(simrt.SiteMap); m.real.Delete(k) }
+
+//go:norace
 func (m *Map) Swap(k, v any) (any, bool) { simrt.Yield(simrt.SiteMap); return m.real.Swap(k, v) }
+
+//go:norace
 func (m *Map) CompareAndSwap(k, o, n any) bool {
 	simrt.Yield(simrt.SiteMap)
 	return m.real.CompareAndSwap(k, o, n)
 }
+
+//go:norace
 func (m *Map) CompareAndDelete(k, o any) bool {
 	simrt.Yield(simrt.SiteMap)
 	return m.real.CompareAndDelete(k, o)
 }
+
+//go:norace
 func (m *Map) Range(f func(k, v any) bool) { simrt.Yield(simrt.SiteMap); m.real.Range(f) }
-func (m *Map) Clear()                      { simrt.Yield(simrt.SiteMap); m.real.Clear() }
+
+//go:norace
+func (m *Map) Clear() { simrt.Yield(simrt.SiteMap); m.real.Clear() }
